@@ -5,7 +5,7 @@ C30 - graphics never draws outside the viewport or the active page;
 E1 (bounded grammar x configurations) on the real interpreter:
 
   leg gfx  : every (adapter, SCREEN) graphics mode of modes._MODES
-             x viewport  {none, VIEW (8,8)-(23,19), VIEW SCREEN (8,8)-(23,19),
+             x viewport  {none, VIEW (12,6)-(27,17), VIEW SCREEN (4,10)-(19,21),
                           VIEW touching the bottom-right corner, VIEW SCREEN touching (0,0)}
              x WINDOW    {none, WINDOW (0,0)-(100,100), WINDOW SCREEN (-1,-1)-(1,1)}
              x (active page, polarity)  {(0, bg 0 / draw 1), (1, bg max / draw 0), ...}
@@ -81,9 +81,10 @@ def view_rect(view, W, Hh):
     if view == 'none':
         return None, (0, 0, W - 1, Hh - 1), False
     if view == 'rel':
-        return b'VIEW (8,8)-(23,19)', (8, 8, 23, 19), True
+        # (left edge and top edge differ, one way in 'rel' and the other in 'abs': bounds of the two axes must not be mixed up)
+        return b'VIEW (12,6)-(27,17)', (12, 6, 27, 17), True
     if view == 'abs':
-        return b'VIEW SCREEN (8,8)-(23,19)', (8, 8, 23, 19), False
+        return b'VIEW SCREEN (4,10)-(19,21)', (4, 10, 19, 21), False
     if view == 'relcorner':
         return b'VIEW (%d,%d)-(%d,%d)' % (W - 16, Hh - 12, W - 1, Hh - 1), (W - 16, Hh - 12, W - 1, Hh - 1), True
     if view == 'abs0':
